@@ -22,6 +22,7 @@ type Env struct {
 	vars  map[string]bound // quantifier variables, results, predicate parameters
 	prm   map[string]bound // function parameters (entry values); shadowed by live local cells
 	now   *State           // the current state, reachable from inside old()/atlock() via now(e)
+	loopOf *loopInfo // set when evaluating an `exit` clause: the loop being left (for atloop())
 	snapPrefix string      // non-empty when evaluating a callee's clauses at a call site
 	local func(name string) (Val, types.Type, bool)
 	at    *ssa.BasicBlock // where the clause is evaluated (loop invariants): selects the map-range iterator of visited()
@@ -582,18 +583,17 @@ func (e *Env) call(x *ECall) (Val, types.Type) {
 			if !ok {
 				return e.fail("%s: the second argument must be a string literal naming the mutex field", x.Fun)
 			}
+			// "field" = the most recent operation on a mutex field of that name (of any struct type);
+			// "Type.field" = on that lock item exactly (needed when two types embed e.g. sync.RWMutex)
 			f := s.Val
-			if i := strings.Index(f, "."); i >= 0 && !strings.Contains(f[i+1:], ".") && f[:1] == strings.ToUpper(f[:1]) {
-				f = f[i+1:] // "Type.field" accepted: snapshots are keyed by the lock item's field
-			}
 			known := false
 			for _, l := range t.eng.contracts.Locks {
-				if l.Field == f {
+				if l.Field == f || l.Type+"."+l.Field == f {
 					known = true
 				}
 			}
 			if !known {
-				return e.fail("%s: no lock item for mutex field %q", x.Fun, f)
+				return e.fail("%s: no lock item for mutex %q", x.Fun, f)
 			}
 			tag = x.Fun + "." + f
 		}
@@ -708,6 +708,8 @@ func (e *Env) call(x *ECall) (Val, types.Type) {
 					li = l
 				}
 			}
+		} else if e.loopOf != nil {
+			li = e.loopOf
 		} else {
 			li = t.loops[e.at.Index]
 		}
